@@ -41,6 +41,7 @@ type Obligation struct {
 	Props  []string
 	vc     *VC
 	Cover  bool // a cover obligation is expected to be SAT (reachability)
+	Budget int  // per-obligation solver budget override (ms), 0 = default
 	Note   string
 }
 
@@ -127,13 +128,16 @@ type VC struct {
 	fieldRange  map[string][2]string
 	rangeSeen   map[string]bool
 	nPanicEdges int
+	immutable   map[string]bool
+	curIface    *types.Named
+	curMethod   *types.Func
 }
 
 func newVC(eng *Engine, fn *ssa.Function, con *Contract, known map[string]string, order []string) *VC {
 	vc := &VC{eng: eng, fn: fn, con: con, declSet: map[string]bool{}, heapSort: map[string]string{},
 		heapKnown: map[string]bool{}, strConsts: map[string]string{}, typeIDs: map[string]int{},
 		notes: map[string]bool{}, unsup: map[string]bool{}, oblNames: map[string]int{}, callN: map[string]int{},
-		ghostSeen: map[string]bool{}, fieldCodes: map[string]int{}, statics: map[string]int{}, lastRet: map[string][]Val{}, fieldRange: map[string][2]string{}, rangeSeen: map[string]bool{}}
+		ghostSeen: map[string]bool{}, fieldCodes: map[string]int{}, statics: map[string]int{}, lastRet: map[string][]Val{}, fieldRange: map[string][2]string{}, rangeSeen: map[string]bool{}, immutable: map[string]bool{}}
 	if con != nil && con.Strings == "smt" {
 		vc.smtStr = true
 	}
@@ -471,6 +475,14 @@ func (vc *VC) fieldVar(st types.Type, i int) string {
 	name := "H_" + vc.structKey(st) + "_" + sanitize(u.Field(i).Name())
 	if !vc.rangeSeen[name] {
 		vc.rangeSeen[name] = true
+		if n, ok := types.Unalias(st).(*types.Named); ok && n.Obj().Pkg() != nil {
+			for _, im := range vc.eng.cs.Immutable {
+				if im.PkgPath == n.Obj().Pkg().Path() && im.Sel == n.Obj().Name()+"."+u.Field(i).Name() {
+					vc.immutable[name] = true
+					vc.note("field " + im.Sel + " is immutable after construction (frame obligation immutable(" + im.Sel + "), " + im.Pos + ")")
+				}
+			}
+		}
 		// assumed value range of the field (assume-range), if any
 		if n, ok := types.Unalias(st).(*types.Named); ok && n.Obj().Pkg() != nil {
 			for _, r := range vc.eng.cs.Ranges {
@@ -551,7 +563,7 @@ func (vc *VC) havocAll(st *State, why string) {
 		if strings.HasPrefix(name, "Gh_") || strings.HasPrefix(name, "DF_") {
 			continue
 		}
-		st.heap[name] = vc.freshConst(name, vc.heapSort[name])
+		st.heap[name] = vc.havocOne(old, name)
 	}
 	nclk := vc.freshConst("CLK", "Int")
 	vc.assume("(>= " + nclk + " " + old.heap["CLK"] + ")")
@@ -771,6 +783,23 @@ func normAnchor(s string) string {
 	return s
 }
 
+// header renders the prelude, declarations and string-constant facts of the VC.
+func (o *Obligation) header() string {
+	q := o.query()
+	// everything before the first assumption of the VC body: reuse query() with an
+	// empty prefix
+	_ = q
+	tmp := *o
+	tmp.Prefix = 0
+	full := tmp.query()
+	// strip the guard/goal/check-sat tail (last 4 lines)
+	lines := strings.Split(strings.TrimRight(full, "\n"), "\n")
+	if len(lines) >= 4 {
+		lines = lines[:len(lines)-4]
+	}
+	return strings.Join(lines, "\n") + "\n"
+}
+
 // query renders the SMT-LIB text of one obligation.
 func (o *Obligation) query() string {
 	vc := o.vc
@@ -821,4 +850,16 @@ func sortedKeys[V any](m map[string]V) []string {
 	}
 	sort.Strings(ks)
 	return ks
+}
+
+// havocOne returns a fresh version of heap variable name.  An immutable field
+// keeps its value on every object allocated before the havoc.
+func (vc *VC) havocOne(old *State, name string) Term {
+	if vc.immutable[name] && strings.HasPrefix(vc.heapSort[name], "(Array Ref ") {
+		// an immutable field is only written while its object is fresh: existing
+		// objects keep their value, and nothing is known about the array at
+		// references not yet allocated, so the same array is a sound model
+		return vc.get(old, name)
+	}
+	return vc.freshConst(name, vc.heapSort[name])
 }
